@@ -1,1 +1,242 @@
-//! String generators (DESIGN §5.4)
+//! String generators (DESIGN §5.4): arbitrary Unicode, alphabet-biased, mutated valid text,
+//! grammar-built FEN and SAN.
+
+use super::positions::gen_position;
+use super::raw::gen_raw;
+use super::Cursor;
+use crate::refmodel::*;
+
+pub const MULTIBYTE: [char; 10] = ['é', '€', '♘', '😀', 'ß', '\u{80}', '\u{7ff}', '\u{800}', '\u{ffff}', '\u{10000}'];
+pub const MOVE_ALPHABET: &str = "abcdefgh12345678NBRQKPOo0-x:=+#nbrqkp ";
+pub const FEN_ALPHABET: &str = "rnbqkpRNBQKP12345678/ wb-KQkqabcdefgh.0369+";
+
+pub fn pick_char(cur: &mut Cursor, alphabet: &str) -> char {
+    let sel = cur.u8();
+    if sel < 200 {
+        let chars: Vec<char> = alphabet.chars().collect();
+        chars[cur.below(chars.len())]
+    } else if sel < 235 {
+        MULTIBYTE[cur.below(MULTIBYTE.len())]
+    } else if sel < 250 {
+        (0x20 + cur.below(0x5f) as u8) as char
+    } else {
+        // any scalar value
+        let v = ((cur.u8() as u32) << 16 | (cur.u8() as u32) << 8 | cur.u8() as u32) % 0x110000;
+        char::from_u32(v).unwrap_or('\u{fffd}')
+    }
+}
+
+pub fn alphabet_string(cur: &mut Cursor, alphabet: &str, max_len: usize) -> String {
+    let n = cur.below(max_len + 1);
+    (0..n).map(|_| pick_char(cur, alphabet)).collect()
+}
+
+/// One or two edits: insert, delete, replace, transpose, truncate (at a character boundary),
+/// duplicate a piece of the text.
+pub fn mutate(cur: &mut Cursor, s: &str, alphabet: &str) -> String {
+    let mut chars: Vec<char> = s.chars().collect();
+    let edits = 1 + cur.below(2);
+    for _ in 0..edits {
+        let op = cur.below(7);
+        let n = chars.len();
+        match op {
+            0 => {
+                let i = cur.below(n + 1);
+                let c = pick_char(cur, alphabet);
+                chars.insert(i, c);
+            }
+            1 if n > 0 => {
+                let i = cur.below(n);
+                chars.remove(i);
+            }
+            2 if n > 0 => {
+                let i = cur.below(n);
+                chars[i] = pick_char(cur, alphabet);
+            }
+            3 if n > 1 => {
+                let i = cur.below(n - 1);
+                chars.swap(i, i + 1);
+            }
+            4 if n > 0 => {
+                let i = cur.below(n);
+                chars.truncate(i);
+            }
+            5 if n > 0 => {
+                let i = cur.below(n);
+                let c = chars[i];
+                chars.insert(i, c);
+            }
+            _ => {
+                let c = pick_char(cur, alphabet);
+                chars.push(c);
+            }
+        }
+    }
+    chars.into_iter().collect()
+}
+
+/// FEN-like text built from components; many variants are accepted by the library although they
+/// are not canonical ('.' cells, signed or zero-padded counters, 4/5-field records, unordered rights).
+pub fn grammar_fen(cur: &mut Cursor) -> String {
+    let (p, _) = if cur.chance(100) { gen_raw(cur) } else { gen_position(cur) };
+    let canon = p.fen();
+    let parts: Vec<&str> = canon.split(' ').collect();
+    let mut board = parts[0].to_string();
+    match cur.below(6) {
+        0 => {
+            // expand digits into dots or ones
+            let dots = cur.bool();
+            let mut nb = String::new();
+            for ch in board.chars() {
+                if let Some(d) = ch.to_digit(10) {
+                    for _ in 0..d {
+                        nb.push(if dots { '.' } else { '1' });
+                    }
+                } else {
+                    nb.push(ch);
+                }
+            }
+            board = nb;
+        }
+        1 => {
+            // split one run: "5" -> "23"
+            if let Some(i) = board.find(|c: char| c.is_ascii_digit() && c > '1') {
+                let d = board[i..i + 1].parse::<u32>().unwrap();
+                let a = 1 + cur.below((d - 1) as usize) as u32;
+                board.replace_range(i..i + 1, &format!("{}{}", a, d - a));
+            }
+        }
+        _ => {}
+    }
+    let side = parts[1].to_string();
+    let mut rights = parts[2].to_string();
+    if cur.chance(60) && rights.len() > 1 {
+        rights = rights.chars().rev().collect();
+    }
+    let ep = parts[3].to_string();
+    let mut half = parts[4].to_string();
+    let mut full = parts[5].to_string();
+    match cur.below(8) {
+        0 => half = format!("+{}", half),
+        1 => full = format!("00{}", full),
+        2 => half = "65536".to_string(),
+        3 => full = "-1".to_string(),
+        _ => {}
+    }
+    let sep = if cur.chance(20) { "  " } else { " " };
+    match cur.below(8) {
+        0 => format!("{} {} {} {}", board, side, rights, ep),
+        1 => format!("{} {} {} {} {}", board, side, rights, ep, half),
+        2 => format!("{} {} {} {} {} {} 7", board, side, rights, ep, half, full),
+        3 => format!("{}{sep}{}{sep}{}{sep}{}{sep}{}{sep}{}", board, side, rights, ep, half, full, sep = sep),
+        4 => format!("{} {} {} {} {} {} ", board, side, rights, ep, half, full),
+        _ => format!("{} {} {} {} {} {}", board, side, rights, ep, half, full),
+    }
+}
+
+/// Components of a SAN text whose intended meaning is known by construction.
+#[derive(Clone, Debug, PartialEq, Eq)]
+pub struct SanParts {
+    pub piece: Option<Pc>, // None = pawn
+    pub from_file: Option<i8>,
+    pub from_rank: Option<i8>,
+    pub capture: bool,
+    pub to: Sq,
+    pub promo: Option<Pc>,
+    pub promo_eq: bool,
+    pub suffix: &'static str,
+    pub colon: bool,
+}
+
+impl SanParts {
+    pub fn text(&self) -> String {
+        let mut s = String::new();
+        if let Some(p) = self.piece {
+            s.push(p.letter());
+        }
+        if let Some(f) = self.from_file {
+            s.push((b'a' + f as u8) as char);
+        }
+        if let Some(r) = self.from_rank {
+            s.push((b'1' + r as u8) as char);
+        }
+        if self.capture {
+            s.push(if self.colon { ':' } else { 'x' });
+        }
+        s.push_str(&sq_name(self.to));
+        if let Some(p) = self.promo {
+            if self.promo_eq {
+                s.push('=');
+            }
+            s.push(p.letter());
+        }
+        s.push_str(self.suffix);
+        s
+    }
+}
+
+pub const SUFFIXES: [&str; 5] = ["", "+", "#", "++", ""];
+
+/// Grammar SAN aimed at a position: mostly built around real men and destinations of the position.
+pub fn grammar_san(cur: &mut Cursor, p: &RefPos) -> SanParts {
+    let legal = p.legal();
+    let base = if !legal.is_empty() && cur.chance(220) { Some(legal[cur.below(legal.len())]) } else { None };
+    let (mut piece, mut to, mut from, mut promo, mut capture) = match base {
+        Some(m) => (
+            if m.man.1 == Pc::P { None } else { Some(m.man.1) },
+            m.to,
+            Some(m.from),
+            if let Kind::Promo(pp) = m.kind { Some(pp) } else { None },
+            p.is_capture(&m),
+        ),
+        None => (Some(cur.pick(&[Pc::N, Pc::B, Pc::R, Pc::Q, Pc::K])), cur.below(64) as Sq, None, None, cur.bool()),
+    };
+    // perturbations
+    if cur.chance(40) {
+        piece = cur.pick(&[None, Some(Pc::N), Some(Pc::B), Some(Pc::R), Some(Pc::Q), Some(Pc::K)]);
+    }
+    if cur.chance(30) {
+        to = cur.below(64) as Sq;
+    }
+    if cur.chance(30) {
+        from = Some(cur.below(64) as Sq);
+    }
+    if cur.chance(25) {
+        promo = cur.pick(&[None, Some(Pc::N), Some(Pc::B), Some(Pc::R), Some(Pc::Q)]);
+    }
+    if cur.chance(40) {
+        capture = !capture;
+    }
+    let hint = cur.below(4); // 0 none, 1 file, 2 rank, 3 both
+    let (mut from_file, mut from_rank) = (None, None);
+    if let Some(f) = from {
+        if hint & 1 != 0 {
+            from_file = Some(file_of(f));
+        }
+        if hint & 2 != 0 {
+            from_rank = Some(rank_of(f));
+        }
+    }
+    if piece.is_none() {
+        // pawn texts: a file hint only with a capture mark; no rank hints in this grammar
+        from_rank = None;
+        if capture {
+            from_file = Some(from.map(file_of).unwrap_or_else(|| cur.below(8) as i8));
+        } else {
+            from_file = None;
+        }
+    } else {
+        promo = None;
+    }
+    SanParts {
+        piece,
+        from_file,
+        from_rank,
+        capture,
+        to,
+        promo,
+        promo_eq: !cur.chance(60),
+        suffix: SUFFIXES[cur.below(SUFFIXES.len())],
+        colon: cur.chance(30),
+    }
+}
